@@ -50,6 +50,8 @@ impl<'a> BlockFiltersProcess<'a> {
             return Status::ok();
         };
 
+        #[cfg(nervosnetwork_ckb_light_client_verif)]
+        crate::verif_hooks::lock_event("block_filters");
         let mut matched_blocks = self
             .filter
             .peers
